@@ -171,11 +171,15 @@ func (s *Server) PushBlock(blk *pbbstream.Block) error {
 	defer s.lock.RUnlock()
 
 	s.SetHeadInfo(blk.Number, blk.Id, blk.Time(), blk.LibNum)
-	if s.buffer != nil {
+	if s.buffer != nil && !s.buffer.Exists(blk.Id) {
 		if s.buffer.Len() >= s.bufferSize {
-			s.buffer.Delete(s.buffer.Tail())
+			if tail := s.buffer.Tail(); tail != nil {
+				s.buffer.Delete(tail)
+			}
 		}
-		s.buffer.AppendHead(blk)
+		if s.bufferSize > 0 {
+			s.buffer.AppendHead(blk)
+		}
 	}
 
 	for _, sub := range s.subscriptions {
